@@ -63,6 +63,7 @@ type Op struct {
 	Parents []int  `json:"parents,omitempty"`
 	Ok      bool   `json:"ok"`
 	New     int    `json:"new,omitempty"`
+	Probe   bool   `json:"probe,omitempty"` // growth: outcome not specified (only well-formedness is checked)
 }
 
 // Key identifies the request (without outcome).
@@ -80,6 +81,9 @@ type Sess struct {
 	Dead   map[int]bool      // positions in Roots of repos deleted in this session
 	ninst  int
 	bogus  string
+	// growth
+	syncMade map[int]bool
+	syncGen  int
 }
 
 // Step records one request and its answer.
@@ -292,6 +296,9 @@ func (s *Sess) Apply(op Op) (accepted bool, status int, err error) {
 			return false, 0, err
 		}
 		return true, 200, nil
+	}
+	if ok, st, err, handled := s.applyGrowth(op); handled {
+		return ok, st, err
 	}
 	return false, 0, fmt.Errorf("unknown op %q", op.Op)
 }
@@ -602,7 +609,8 @@ func Diff(want State, ob *Observed) []string {
 		deadRoot[r] = true
 	}
 	for i := 0; i < want.NN && i < got.NN; i++ {
-		isDead := deadRoot[want.Rp[i]]
+		// a version removed by hide-branch is as absent as one of a deleted repo
+		isDead := deadRoot[want.Rp[i]] || want.Kind[i] == "hidden"
 		if i < len(ob.Missing) && ob.Missing[i] != isDead {
 			if isDead {
 				d = append(d, fmt.Sprintf("n%d belongs to a deleted repo but is still listed", i+1))
@@ -660,6 +668,12 @@ func (s *Sess) ConcreteBranch(b string) string {
 	if strings.HasPrefix(b, "tag-") {
 		if h, ok := s.Pool[b[4:]]; ok {
 			return "tag-" + h
+		}
+	}
+	// growth: the branch of a resolve extension node is named after its parent
+	if strings.HasPrefix(b, "conflict-") {
+		if k, err := strconv.Atoi(b[len("conflict-"):]); err == nil && k >= 1 && k <= len(s.UUIDs) {
+			return "conflict-" + s.UUIDs[k-1]
 		}
 	}
 	return b
